@@ -886,6 +886,8 @@ class AEval(dtable.Eval):
                 return self.apply(env[f["path"]], args)
             if f["path"] in COLLECTION_CTORS:
                 return L()
+            if not args and re.match(r"^[A-Z]::default$", f["path"]):
+                return DEFAULT          # the Default of a type parameter
             if f["path"] in ("Cow::Owned", "Cow::Borrowed", "std::borrow::Cow::Owned", "std::borrow::Cow::Borrowed") and len(args) == 1:
                 return args[0]
             if last in self.funcs:
@@ -1389,6 +1391,12 @@ class AEval(dtable.Eval):
                 return r[2][0]
             if m in ("unwrap", "expect") and r[1] == "Err":
                 raise Ret(C("!panic"))
+            if m == "unwrap_or_default" and r[1] == "Err" and not args:
+                return DEFAULT
+            if m == "unwrap_or_else" and r[1] == "Err" and len(args) == 1:
+                return self.apply(args[0], list(r[2][:1]))
+            if m == "unwrap_or" and r[1] == "Err" and len(args) == 1:
+                return args[0]
             if m == "is_ok":
                 return B(r[1] == "Ok")
             if m == "is_err":
@@ -1463,6 +1471,19 @@ class AEval(dtable.Eval):
                     while u.endswith(pat_):
                         u = u[:len(u) - len(pat_)]
                 return ("str", u)
+        if m in ("to_uppercase", "to_lowercase", "to_ascii_uppercase", "to_ascii_lowercase") and not args:
+            return ("str", t.upper() if "upper" in m else t.lower())
+        if m in ("replace", "replacen") and len(args) >= 2 and args[0][0] in ("str", "char") and args[1][0] in ("str", "char"):
+            fr_ = args[0][1] if args[0][0] == "str" else chr(args[0][1])
+            to_ = args[1][1] if args[1][0] == "str" else chr(args[1][1])
+            if m == "replace":
+                return ("str", t.replace(fr_, to_))
+            if len(args) == 3 and args[2][0] == "int":
+                return ("str", t.replace(fr_, to_, args[2][1]))
+        if m == "eq_ignore_ascii_case" and len(args) == 1 and args[0][0] == "str":
+            return B(t.lower() == args[0][1].lower())
+        if m == "repeat" and len(args) == 1 and args[0][0] == "int":
+            return ("str", t * args[0][1])
         if m == "trim_start" and not args:
             return ("str", t.lstrip())
         if m == "trim_end" and not args:
